@@ -363,12 +363,32 @@ func runC06(c *ctx) {
 				}
 			}
 		}
+		// an endpoints notification of the first batch delivered again: the backend is rebuilt by the partial sync
+		if g.r.Chance(1, 2) {
+			var eps []string
+			for _, o := range rest {
+				if strings.HasPrefix(o, "ep~") {
+					eps = append(eps, o)
+				}
+			}
+			if len(eps) > 0 {
+				ops = append(ops, gen.Pick(g.r, eps))
+			}
+		}
+		if len(opts) == 0 && g.r.Chance(1, 3) {
+			opts = append(opts, "opt~db="+gen.Pick(g.r, syncNamespaces)+"/"+gen.Pick(g.r, syncServices))
+		}
 		ops = append(ops, "sync")
 		c06case(c, "hist", append(ops, opts...), k, 0)
 	}
 }
 
 var c06corpus = []string{
+	// --default-backend-service names a service that an ingress also uses with a create-time backend setting
+	// (service-upstream / initial-weight / backend-server-naming): whoever creates the backend object first decides;
+	// a partial sync must process the declarations in the order of a full sync (seed C06d)
+	"hist svc+d/app!http:80:8080!- ep~d/app!10.0.1.1:r:app-1 ing+d/i1@1!haproxy,-!service-upstream=true!a.local>/:Prefix:app:80!-!- sync ep~d/app!10.0.1.1:r:app-1+10.0.1.2:r:app-2 sync opt~db=d/app",
+	"hist svc+d/app!http:80:8080!- ep~d/app!10.0.1.1:r:app-1 ing+d/i1@1!haproxy,-!initial-weight=50!a.local>/:Prefix:app:80!-!- sync ep~d/app!10.0.1.1:r:app-1+10.0.1.2:r:app-2 sync opt~db=d/app",
 	// repaired by 8cccd42 (was: order-dependent-tie-between-path-types): `/a` Prefix and `/a` begin tie for
 	// a.local/a/x; which one answered depended on the positions of the priority map files created by the
 	// OTHER hosts, i.e. on Go's iteration over HostsMap.rawhosts (5 of 12 processes api, 7 app)
